@@ -43,6 +43,19 @@ Definition model_ok (c : case) : bool :=
       | DErr, None => true
       | _, _ => false
       end
+  | CVal x sh enc =>
+      (* the text is compared by what it denotes (value, member order): an
+         equivalent choice of escapes or number spelling is not a difference *)
+      match encode (fstr_of sh) x, enc with
+      | Some m, Some r => outcome_eqb (spec_decode m) (spec_decode r)
+      | None, None => true
+      | _, _ => false
+      end
+  end.
+(* informational: byte-for-byte equality of the model's text and the real one *)
+Definition text_ok (c : case) : bool :=
+  match c with
+  | CDoc _ _ _ => true
   | CVal x sh enc => obytes_eqb (encode (fstr_of sh) x) enc
   end.
 (* oracle: the implementation did what the reference decoder / the JSON reading says *)
@@ -260,7 +273,7 @@ def run(ctx):
     ctx.proofs()
     hx = ctx.go_build("c18")
     if ctx.quick():
-        nvals, ndocs, coq_docs, coq_vals = 1500, 8000, 1000, 250
+        nvals, ndocs, coq_docs, coq_vals = 1500, 8000, 720, 180
     else:
         nvals, ndocs, coq_docs, coq_vals = 40000, 400000, 8000, 2500
     cmd = [hx, "-seed", str(ctx.seed), "-nvals", str(nvals), "-ndocs", str(ndocs), "-deep", "-deepmax", "5000" if ctx.quick() else "100000"]
@@ -383,7 +396,10 @@ def run(ctx):
         terms.append("(CVal %s [%s] %s)" % (coq_value(c["x"]), "; ".join(sh), enc))
         refs.append(c)
     ctx.log("evaluating %d documents and %d values in Coq (model, reference, Go copy of the reference)" % (len(sample_docs), len(sample_vals)))
-    bad_model, bad_spec, bad_go = coq_eval(ctx, "c18_cases", HEADER + COQ_DEFS, terms, ["model_ok", "spec_ok", "gospec_ok"])
+    bad_model, bad_spec, bad_go, bad_text = coq_eval(ctx, "c18_cases", HEADER + COQ_DEFS, terms, ["model_ok", "spec_ok", "gospec_ok", "text_ok"], shard=300)
+    if bad_text:
+        c = refs[bad_text[0]]
+        ctx.notes.append("json.encode text differs from the model's byte for byte on %d sampled value(s) (same denotation unless reported above), e.g. x = %s" % (len(bad_text), str(c["x"])[:200]))
     for i in bad_go:
         c = refs[i]
         ctx.broken("spec-copies-differ", "Spec.v and the Go reference decoder disagree on %s (Go copy: %s)" % (show(hexb(c["d"])), c["gospec"]))
@@ -424,6 +440,7 @@ def run(ctx):
         "distribution": dist,
         "outcome_classes": len(ncls),
         "model_mismatches": len(bad_model), "spec_mismatches": len(bad_spec), "go_reference_mismatches": len(bad_go),
+        "encode_text_differences": len(bad_text),
         "valid_disagreements": spec_disagree,
     }
     return ctx.finish(LEVEL, cov, assumptions=[
